@@ -7,7 +7,7 @@ LEVEL = 'fault_enumeration'
 TECHNIQUE = 'fault injection with enumerated crash points: one party is stopped at a chosen byte offset of its total outgoing stream (EOF / reset / silent), survivors\' completed outputs are compared with the reference; hangs are decided by quiescence and allowed'
 RULE = ('case = (configuration, program, crashing party X, byte offset B in X\'s outgoing stream, end-of-stream mode, schedule); '
         'non-trivial = the crash happened before X finished (B < bytes X sends in the fault-free run) and >= 1 survivor was still waiting; distinct by that tuple')
-EXHAUSTIVE = 'quick: every frame boundary of every party plus offsets +1,+8,+11,+12,+13 and mid-payload inside every frame, 3 end-of-stream modes; thorough: every byte offset'
+EXHAUSTIVE = 'thorough: every byte offset for m <= 3, every 2nd (m=4) / 5th (m=5) byte plus all frame-relative offsets; quick: every frame boundary of every party plus offsets +1,+8,+11,+12,+13 and mid-payload inside every frame, 3 end-of-stream modes; thorough: every byte offset'
 ASSUMPTIONS = ['a crash = the party stops executing and its connections end (EOF or reset) or go silent; bytes written before the crash point are delivered',
                'SIM transport/loop assumptions as in C08']
 REQUIRE = {'any': {'crash_runs': 1000, 'survivor_outputs_checked': 1000, 'runs_where_survivors_hang': 100, 'crash_inside_frame': 300}}
@@ -106,7 +106,13 @@ def run(shard, rec):
         layout = list(w0.write_log[X])
         offsets = set()
         if shard['every_byte']:
-            offsets = set(range(0, total + 1))
+            stride = {2: 1, 3: 1, 4: 2}.get(m, 5)          # every byte for m <= 3; every 2nd / 5th byte (plus all frame-relative offsets below) for m = 4 / 5
+            offsets = set(range(0, total + 1, stride))
+            for off, ln, dst in layout:
+                for d in (0, 1, 8, 11, 12, 13, ln // 2, ln - 1):
+                    if 0 <= d <= ln:
+                        offsets.add(off + d)
+            offsets.add(total)
         else:
             for off, ln, dst in layout:
                 for d in (0, 1, 8, 11, 12, 13, ln // 2, ln - 1):
